@@ -1,6 +1,12 @@
 """Tables regenerated from /repo's source on every run (translated with `ast`, re-checked by Lean)."""
 from __future__ import annotations
 
+import os
 
-def regenerate() -> None:
-    return None
+VERIF = os.path.dirname(os.path.dirname(os.path.abspath(__file__)))
+
+
+def regenerate() -> dict:
+    from . import effects
+    rows = effects.write_lean(os.path.join(VERIF, "lean", "KodaModel", "Generated", "Effects.lean"))
+    return {"effects_rows": len(rows), "not_confined": [r for r in rows if r["target"] != "fresh-local"]}
